@@ -34,7 +34,8 @@ CLAIMS = {
           'routing decision for every registry configuration rather than '
           'the two sampled ones.'
           ' Also: resolver purity - the resolver reads only the registry and its arguments and stores nothing (a cache makes the answer history-dependent).'
-          " Also: the handler tables of different namespaces are distinct objects; the legacy one-argument disconnect retry arm (functions and namespace classes) is exactly: TypeError and event == 'disconnect' -> one re-invocation without the last argument, result returned.",
+          " Also: the handler tables of different namespaces are distinct objects; the legacy one-argument disconnect retry arm (functions and namespace classes) is exactly: TypeError and event == 'disconnect' -> one re-invocation without the last argument, result returned."
+          " Also: names that coincide with the catch-all key ('*' as event or namespace name) only reach the catch-all targets, with the name prepended (F14, fixed).",
   'note': TRUST + "Assumes event/namespace names differ from the literal "
           "'*' and registered handlers are truthy. A resolver rewritten "
           'into a form outside the evaluator (lookup loop, helper in '
@@ -59,7 +60,8 @@ CLAIMS = {
           '(C20), delivery after disconnect beyond the room structure.'
           ' Also: a ConnectionRefusedError raised by any invocation of the connect handler (legacy-signature retry included) is contained and handled as a refusal; a refused duplicate CONNECT touches no state keyed by the client.'
           ' Also: a connect handler that failed with another exception has not accepted the client; can_disconnect answers through is_connected; the release after the disconnect handler is local (ignore_queue=True).'
-          ' Also: the request environment is removed only where the transport ends; namespace normalised before the sid lookup; ignore_queue selects is_connected vs can_disconnect; local release of a refused sid.',
+          ' Also: the request environment is removed only where the transport ends; namespace normalised before the sid lookup; ignore_queue selects is_connected vs can_disconnect; local release of a refused sid.'
+          " Also: ConnectionRefusedError's message/data table is evaluated on concrete argument displays of 0-4 opaque elements (every path must produce the documented error_args).",
   'note': TRUST + 'asyncio tasks interleave only at awaits that can '
           'suspend (computed as a fixed point over the call graph; abstract '
           'coroutines count as suspending).',
@@ -81,7 +83,8 @@ CLAIMS = {
           'cross-client ACK isolation follow from these per-path facts and '
           'are not explored as histories.'
           ' Also: the gate and both sid resolvers read one admission table (rooms[ns][None]) and no second index.'
-          ' Also: a started handler task stays strongly referenced under itself; engine.io events are wired to the three handlers; _send_packet sends every frame; class-based namespaces hand the result back.',
+          ' Also: a started handler task stays strongly referenced under itself; engine.io events are wired to the three handlers; _send_packet sends every frame; class-based namespaces hand the result back.'
+          ' Also: per-packet reassembly state (shared C01.R5).',
   'note': TRUST + 'engine.io delivers one client\'s frames in order.',
   'technique': 'static analysis: decision table over packet types and id '
                'domain by symbolic path enumeration, guard dominance, '
@@ -136,7 +139,8 @@ CLAIMS = {
           'growth as a number is NOT decided.'
           ' Also: room membership only with proof that the sid is connected and nothing created before the failing lookup (F11, fixed); statements indexing client-controlled data in the release sequence count as raisers.'
           ' Also: asyncio: a CancelledError of an application coroutine is contained where it is awaited (the transport-loss loop catches Exception only).'
-          ' Also: a client is marked as disconnecting once (shared C04.R2).',
+          ' Also: a client is marked as disconnecting once (shared C04.R2).'
+          ' Also: no per-client table creates entries on read.',
   'note': TRUST + 'raisers = calls that reach application code over the '
           'call graph.',
   'technique': 'static analysis: must-release pairing over enumerated '
@@ -157,7 +161,8 @@ CLAIMS = {
           'Global non-interference over all server states is NOT decided.'
           ' Also: the codec keeps no state outside the packet object (no shared decoder, no globals, no class-attribute writes); the connected-gate itself (is_connected table) is shared from C04.'
           ' Also: a dict with a truthy _placeholder and a num never survives reconstruction as data (it becomes the attachment or the packet fails).'
-          ' Also: frames are ASCII JSON (ensure_ascii stays on).',
+          ' Also: frames are ASCII JSON (ensure_ascii stays on).'
+          ' Also: regular expressions in the codec have no nested unbounded repetition; no class-level mutable state in the packet classes.',
   'note': TRUST + 'engine.io contains exceptions of the message callback.',
   'technique': 'static analysis: taint-to-sink scan, guard dominance on '
                'enumerated paths, key provenance',
@@ -190,7 +195,8 @@ CLAIMS = {
           'new violation. This is a necessary condition for the property.'
           ' Also: whoever marks the client runs the handler on every path; the handler and the mark are dominated by a connected-test made in the same function.'
           ' Also: can_disconnect answers through is_connected in every manager (shared C04.R10).'
-          ' Also: nothing that can reach the transport or the application runs between the connected-test and the mark.',
+          ' Also: nothing that can reach the transport or the application runs between the connected-test and the mark.'
+          ' Also: the lookups made before the connected-test tolerate a half-removed client.',
   'note': TRUST + 'a repair relying on one GIL-atomic operation is not '
           'recognised.',
   'technique': 'static analysis: lockset (held-lock) check on enumerated '
@@ -211,7 +217,8 @@ CLAIMS = {
           'namespaces were accepted. Whole histories are NOT explored.'
           ' Also: a packet handler that lowers `connected` closes the transport on the same path (F12, fixed); disconnect() always closes the transport.'
           ' Also: the default namespace list is the duplicate-free union of the two handler registries.'
-          ' Also: connect(): transport failure reported to connect_error per requested namespace, retry branch, every wake-up of the namespace wait consumed; transport closed with abort=True from packet handlers; client resolver tables (shared C13).',
+          ' Also: connect(): transport failure reported to connect_error per requested namespace, retry branch, every wake-up of the namespace wait consumed; transport closed with abort=True from packet handlers; client resolver tables (shared C13).'
+          ' Also: the auth payload is resolved once per connection.',
   'note': TRUST,
   'technique': 'static analysis: must-update / guard dominance on '
                'enumerated paths, ownership',
@@ -265,7 +272,8 @@ CLAIMS = {
           'nsp, id, compact JSON; a truthiness test that would drop id 0 is '
           'reported); the attachment hand-back protocol; extraction order '
           'and separators of the scanner agree with the emitter.'
-          ' Also: every item of a list is recursed into on both the extracting and the reconstructing side.',
+          ' Also: every item of a list is recursed into on both the extracting and the reconstructing side.'
+          " Also: the namespace is cut out of the frame with the separators ',' and '?' only.",
   'note': TRUST + 'json fidelity and grammar ambiguities (digit adjacency) '
           'are outside the decided part.',
   'technique': 'static analysis: decision tables by symbolic path '
@@ -284,7 +292,8 @@ CLAIMS = {
           'no resolved in-package call binds a parameter-named argument to '
           'a different parameter (swapped arguments; positive control).'
           ' Also: with a binary packet pending every path hands the frame to the pending packet (no frame is dropped on the way).'
-          ' Also: the decoder rejects no frame because of the value of a decoded number; all four _send_packet hand every frame of the encoded packet to the transport in order.',
+          ' Also: the decoder rejects no frame because of the value of a decoded number; all four _send_packet hand every frame of the encoded packet to the transport in order.'
+          ' Also: optional msgpack fields are left out only under an `is None` test.',
   'note': TRUST + 'engine.io delivers frames in order.',
   'technique': 'static analysis: decision tables, call-binding and schema '
                'agreement over the ast',
@@ -338,7 +347,8 @@ CLAIMS = {
           're-applied and foreign acknowledgements complete nothing; the '
           'Redis (thorough: Kombu, AioPika) listen loops stay in the loop '
           'with a capped back-off and _publish makes at most two attempts.'
-          ' Also: the handlers that keep the listener and the listen/publish retry loops alive read no possibly-unbound name (definite assignment).',
+          ' Also: the handlers that keep the listener and the listen/publish retry loops alive read no possibly-unbound name (definite assignment).'
+          ' Also: no non-reentrant lock is held while application code can run.',
   'note': TRUST + 'logger calls do not raise.',
   'technique': 'static analysis: exceptional-exit enumeration over '
                'structured paths (every call a raiser)',
@@ -359,7 +369,8 @@ CLAIMS = {
           'instrumentation are NOT decided.'
           ' Also: tables the instrumentation hangs on the server are filled before the original runs (the deleting wrapper arm cannot fail in front of the application).'
           " Also: the server's connect path contains refusals and treats a failed handler (raising predicate) as not accepted (shared C04.R9)."
-          ' Also: a wrapper indexes no server state before the original has run; instrument() forwards its configuration parameter by parameter.',
+          ' Also: a wrapper indexes no server state before the original has run; instrument() forwards its configuration parameter by parameter.'
+          ' Also: the instrumentation never reads user sessions.',
   'note': TRUST + 'Python equality decides "equals the credentials".',
   'technique': 'static analysis: decision table, guard dominance, wrapper '
                'forwarding check',
